@@ -1300,6 +1300,7 @@ func vfRunMachine(t *rapid.T, cfg vfCfg) {
 			}
 		}
 	}()
+	m.baseGo = runtime.NumGoroutine() // includes the watchdog
 	after := func() {
 		atomic.AddInt64(&m.beat, 1)
 		m.steps++
